@@ -30,6 +30,7 @@ import (
 	"encoding/binary"
 	"errors"
 	"fmt"
+	"io"
 	golog "log"
 	"net"
 	"net/netip"
@@ -85,46 +86,57 @@ func verifC19DNSAnswer(q []byte) []byte {
 	return resp
 }
 
-func verifC19InstallResolver() {
-	net.DefaultResolver = &net.Resolver{PreferGo: true, Dial: func(ctx context.Context, network, address string) (net.Conn, error) {
-		c, s := net.Pipe()
-		go func() {
-			defer s.Close()
-			for {
-				var l [2]byte
-				if _, err := readFull(s, l[:]); err != nil {
-					return
-				}
-				q := make([]byte, binary.BigEndian.Uint16(l[:]))
-				if _, err := readFull(s, q); err != nil {
-					return
-				}
-				a := verifC19DNSAnswer(q)
-				if a == nil {
-					return
-				}
-				out := make([]byte, 2+len(a))
-				binary.BigEndian.PutUint16(out, uint16(len(a)))
-				copy(out[2:], a)
-				if _, err := s.Write(out); err != nil {
-					return
-				}
-			}
-		}()
-		return c, nil
-	}}
+// verifC19DNSConn answers synchronously inside Write: no goroutine, no timing.
+type verifC19DNSConn struct {
+	mu  sync.Mutex
+	in  []byte
+	out bytes.Buffer
 }
 
-func readFull(c net.Conn, b []byte) (int, error) {
-	n := 0
-	for n < len(b) {
-		m, err := c.Read(b[n:])
-		n += m
-		if err != nil {
-			return n, err
+func (c *verifC19DNSConn) Write(p []byte) (int, error) {
+	c.mu.Lock()
+	defer c.mu.Unlock()
+	c.in = append(c.in, p...)
+	for len(c.in) >= 2 {
+		n := int(binary.BigEndian.Uint16(c.in))
+		if len(c.in) < 2+n {
+			break
+		}
+		a := verifC19DNSAnswer(c.in[2 : 2+n])
+		c.in = c.in[2+n:]
+		if a != nil {
+			var l [2]byte
+			binary.BigEndian.PutUint16(l[:], uint16(len(a)))
+			c.out.Write(l[:])
+			c.out.Write(a)
 		}
 	}
-	return n, nil
+	return len(p), nil
+}
+
+func (c *verifC19DNSConn) Read(p []byte) (int, error) {
+	c.mu.Lock()
+	defer c.mu.Unlock()
+	if c.out.Len() == 0 {
+		return 0, io.EOF
+	}
+	return c.out.Read(p)
+}
+func (c *verifC19DNSConn) Close() error { return nil }
+func (c *verifC19DNSConn) LocalAddr() net.Addr {
+	return &net.TCPAddr{IP: net.IPv4(127, 0, 0, 1), Port: 40000}
+}
+func (c *verifC19DNSConn) RemoteAddr() net.Addr {
+	return &net.TCPAddr{IP: net.IPv4(127, 0, 0, 1), Port: 53}
+}
+func (c *verifC19DNSConn) SetDeadline(time.Time) error      { return nil }
+func (c *verifC19DNSConn) SetReadDeadline(time.Time) error  { return nil }
+func (c *verifC19DNSConn) SetWriteDeadline(time.Time) error { return nil }
+
+func verifC19InstallResolver() {
+	net.DefaultResolver = &net.Resolver{PreferGo: true, Dial: func(ctx context.Context, network, address string) (net.Conn, error) {
+		return &verifC19DNSConn{}, nil
+	}}
 }
 
 // ---- probe sets -----------------------------------------------------------------------------------------
@@ -146,7 +158,7 @@ var verifC19Gens = []uint{1, 2, 957, 1000}
 
 func verifC19Seeds() [][]byte {
 	var out [][]byte
-	for i := 0; i < 4; i++ {
+	for i := 0; i < 3; i++ {
 		h := sha256.Sum256([]byte(fmt.Sprintf("c19-select-seed-%d", i)))
 		out = append(out, h[:])
 	}
@@ -339,10 +351,17 @@ type verifC19Env struct {
 	logbuf    bytes.Buffer
 	regbuf    verifC19Sink
 	steps     int
+	// what the repository's own loader makes of each subnets file (the files of the pool never change)
+	subCache map[string]verifC19Fresh
 	// the file CJ_STATION_CONFIG points at right now
 	liveText     string
 	liveClass    string // generator class
 	liveMustFail string // "" | syntax | policy-type | missing | dir
+}
+
+type verifC19Fresh struct {
+	err error
+	sel []string // selections of a selector freshly loaded from the file
 }
 
 type verifC19Station struct {
@@ -356,6 +375,8 @@ type verifC19Station struct {
 	ingest  bool
 	mode    string // liveness mode: uncached | live-only | nonlive-only | both
 	dead    bool   // a panic that would have killed the process happened
+	// decisions observed after the last start-up / reload (the "before" of the next reload)
+	pol, sel []string
 }
 
 // verifC19Sink counts and discards (goroutine-safe: ingest workers log concurrently).
@@ -559,12 +580,6 @@ func (e *verifC19Env) populate(st *verifC19Station, rng interface{ Intn(int) int
 		getProxyStats().addBytes(int64(rng.Intn(5000)), i%2 == 0)
 		getProxyStats().addCompleted(int64(rng.Intn(3)), i%2 == 0)
 		getProxyStats().removeSession()
-	}
-	if st.ingest && rng.Intn(2) == 0 {
-		select {
-		case st.regChan <- []byte("not a registration"):
-		default:
-		}
 	}
 }
 
@@ -870,8 +885,11 @@ func (e *verifC19Env) reload(st *verifC19Station, step kit.C19Reload, idx int) b
 	}
 	_ = subChanged
 
-	polBefore, _ := verifC19Policy(st.rm.RegConfig)
-	selBefore, _ := verifC19Select(st.rm.PhantomSelector)
+	if st.pol == nil {
+		st.pol, _ = verifC19Policy(st.rm.RegConfig)
+		st.sel, _ = verifC19Select(st.rm.PhantomSelector)
+	}
+	polBefore, selBefore := st.pol, st.sel
 	geoBefore := st.rm.GeoIP
 
 	// ---- main.go:176-191 ----------------------------------------------------------------------------------
@@ -910,11 +928,18 @@ func (e *verifC19Env) reload(st *verifC19Station, step kit.C19Reload, idx int) b
 	}
 
 	// ---- what loaded, judged independently of OnReload --------------------------------------------------------
-	var freshSel *phantoms.PhantomIPSelector
-	var subErr error
-	if pn := kit.C19Try(func() { freshSel, subErr = phantoms.SubnetsFromTomlFile(e.curSub) }); pn != nil {
-		subErr = fmt.Errorf("loader panicked: %s", pn.Val)
+	fresh, ok := e.subCache[e.curSub]
+	if !ok {
+		var freshSel *phantoms.PhantomIPSelector
+		if pn := kit.C19Try(func() { freshSel, fresh.err = phantoms.SubnetsFromTomlFile(e.curSub) }); pn != nil {
+			fresh.err = fmt.Errorf("loader panicked: %s", pn.Val)
+		}
+		if fresh.err == nil {
+			fresh.sel, _ = verifC19Select(freshSel)
+		}
+		e.subCache[e.curSub] = fresh
 	}
+	subErr := fresh.err
 	geoFailed := false
 	if applied && newConf.RegConfig != nil {
 		_, gerr := geoip.New(newConf.RegConfig.DBConfig)
@@ -935,15 +960,13 @@ func (e *verifC19Env) reload(st *verifC19Station, step kit.C19Reload, idx int) b
 		st.dead = true
 		return false
 	}
+	st.pol, st.sel = polAfter, selAfter
 
 	failClass := confClass
 	if failClass == "" && err != nil {
 		failClass = "parse-error"
 	}
-	var selNew []string
-	if subErr == nil {
-		selNew, _ = verifC19Select(freshSel)
-	}
+	selNew := fresh.sel
 
 	if confFailed {
 		e.rec.Count("reload_failed_config", 1)
@@ -1031,7 +1054,7 @@ func (e *verifC19Env) reload(st *verifC19Station, step kit.C19Reload, idx int) b
 func TestVerifC19Config(t *testing.T) {
 	rec := kit.NewRec("C19", "config")
 	defer rec.Close()
-	e := &verifC19Env{t: t, rec: rec}
+	e := &verifC19Env{t: t, rec: rec, subCache: map[string]verifC19Fresh{}}
 	e.dir = filepath.Join(kit.OutDir(), "c19-files")
 	if err := os.MkdirAll(e.dir, 0o755); err != nil {
 		t.Fatal(err)
@@ -1098,6 +1121,9 @@ func TestVerifC19Config(t *testing.T) {
 			planDesc[i] = plan[i].String()
 		}
 		e.steps = ci
+		if cfg.MustFail == "syntax" && verifC19Cause(cfg.Text) != "unparsable-toml" {
+			t.Fatalf("generator bug: a file labelled syntax-malformed parses as TOML:\n%s", cfg.Text)
+		}
 		rec.Case(map[string]interface{}{"case": ci, "class": cfg.Class, "desc": cfg.Desc, "config": cfg.Text, "reload_plan": planDesc})
 		rec.Count("evaluations", 1)
 
